@@ -328,6 +328,10 @@ def build_for(case):
                             and inspect.getcoroutinestate(act) == inspect.CORO_CREATED:
                         act.close()
         background = [first_cancel()] if spec.get('in_cleanup') else []
+        # a privileged failure of an activity ends the call whatever strikes the caller in that
+        # time step: it takes the place of the signal, the caller handles it - and lives on
+        arena.excuse = lambda kind, name, when: any(
+            raised_at == when for _, raised_at in checker.privileged_raised)
         if spec.get('in_cleanup'):
             # its clean-up takes virtual time by design (the rule about second strikes is
             # `c16:caller-struck-but-call-goes-on`)
